@@ -10,7 +10,9 @@ use vmodel::ty::Ty;
 use vmodel::val::{shape, Val};
 
 pub mod basic;
+pub mod cross;
 pub mod cursor;
+pub mod derive;
 pub mod faultio;
 pub mod files;
 pub mod format;
@@ -25,6 +27,7 @@ pub fn lookup(prop: &str) -> Option<CheckFn> {
         "C01" => basic::c01,
         "C02" => basic::c02,
         "C03" => basic::c03,
+        "C05" => derive::c05,
         "C06" => format::c06,
         "C07" => format::c07,
         "C08" => files::c08,
@@ -42,7 +45,7 @@ pub fn lookup(prop: &str) -> Option<CheckFn> {
 
 pub fn default_cases(prop: &str, tier: Tier) -> u32 {
     let (q, t) = match prop {
-        "C01" | "C02" | "C03" | "C06" | "C07" | "C18" => (64, 512),
+        "C01" | "C02" | "C03" | "C05" | "C06" | "C07" | "C18" => (64, 512),
         "C10" => (6, 24),
         "C11" => (12, 64),
         "C12" => (12, 64),
